@@ -147,6 +147,7 @@ type VC struct {
 	unsup    []string
 	globals  []string
 	oblNames map[string]int
+	lemmaIdx map[int]bool // assumptions that are earlier postconditions of the same function (used as lemmas)
 	noname   int
 	specInl  int
 }
@@ -192,6 +193,18 @@ func (vc *VC) assumeIf(g, t Term) {
 		return
 	}
 	vc.assume(fmt.Sprintf("(=> %s %s)", g, t))
+}
+
+// assumeLemma: an earlier, separately checked clause made available to later obligations.
+func (vc *VC) assumeLemma(t Term) {
+	if t == "true" || vc.noname > 0 {
+		return
+	}
+	if vc.lemmaIdx == nil {
+		vc.lemmaIdx = map[int]bool{}
+	}
+	vc.lemmaIdx[len(vc.asserts)] = true
+	vc.asserts = append(vc.asserts, t)
 }
 
 func (vc *VC) fresh(prefix, sort string) Term {
